@@ -65,7 +65,7 @@ type CConn struct {
 }
 
 type Step struct {
-	Op   string `json:"op"` // feed | release
+	Op   string `json:"op"` // feed | release | register (a handler for another command is registered on the mux from another goroutine, as sm.Client does for every dial)
 	Conn int    `json:"conn"`
 	N    int    `json:"n,omitempty"` // feed: number of fragments
 }
@@ -197,6 +197,7 @@ func (m *model) advance(ci int) {
 }
 
 type hooks struct {
+	register   func()
 	feed       func(ci int, frag []byte)
 	release    func(ci, seq int)
 	checkpoint func(m *model, why string) *ev.Failure
@@ -241,6 +242,10 @@ func drive(c *Case, h hooks) *ev.Failure {
 		case "release":
 			if f := release(s.Conn); f != nil {
 				return f
+			}
+		case "register":
+			if h.register != nil {
+				h.register()
 			}
 		}
 	}
@@ -437,8 +442,31 @@ func runCase(c Case) *ev.Failure {
 		}
 	}
 
+	var regs sync.WaitGroup
+	nreg := 0
 	if fail == nil {
 		fail = drive(&c, hooks{
+			register: func() {
+				// from another goroutine; it may have to wait for handlers that are running, but
+				// must not keep later messages of any connection from being dispatched
+				nreg++
+				name := fmt.Sprintf("ZZ%dR", nreg)
+				done := make(chan struct{})
+				regs.Add(1)
+				go func() {
+					defer regs.Done()
+					defer close(done)
+					if c.NilHandler {
+						diam.HandleFunc(name, func(diam.Conn, *diam.Message) {})
+					} else {
+						mux.HandleFunc(name, func(diam.Conn, *diam.Message) {})
+					}
+				}()
+				select {
+				case <-done:
+				case <-time.After(3 * time.Millisecond):
+				}
+			},
 			feed:    func(ci int, frag []byte) { conns[ci].Feed(frag) },
 			release: open,
 			checkpoint: func(m *model, why string) *ev.Failure {
@@ -506,6 +534,7 @@ func runCase(c Case) *ev.Failure {
 	}
 	close(stop)
 	bg.Wait()
+	regs.Wait()
 	if fail != nil {
 		return fail
 	}
@@ -603,8 +632,10 @@ func genCase(t *rapid.T) Case {
 	ns := rapid.IntRange(0, 24).Draw(t, "steps")
 	for i := 0; i < ns; i++ {
 		s := Step{Op: "feed", Conn: rapid.IntRange(0, nc-1).Draw(t, "conn")}
-		if rapid.IntRange(0, 3).Draw(t, "release") == 0 {
+		if k := rapid.IntRange(0, 11).Draw(t, "release"); k < 3 {
 			s.Op = "release"
+		} else if k == 3 {
+			s.Op = "register"
 		} else if c.Conns[s.Conn].Pattern == "bytes" {
 			s.N = rapid.IntRange(1, 120).Draw(t, "n")
 		} else {
@@ -680,10 +711,22 @@ func classify(c Case) (bool, []string) {
 	}
 	// what the script exercises, by the model
 	last := make([]int, len(c.Conns))
+	var mdl *model
 	drive(&c, hooks{
+		register: func() {
+			add("handler-registered-while-serving")
+			if mdl != nil {
+				for ci := range c.Conns {
+					if mdl.held[ci] != 0 {
+						add("handler-registered-while-a-handler-is-held")
+					}
+				}
+			}
+		},
 		feed:    func(int, []byte) {},
 		release: func(int, int) {},
 		checkpoint: func(m *model, why string) *ev.Failure {
+			mdl = m
 			heldConns := 0
 			for ci := range c.Conns {
 				if m.held[ci] != 0 {
@@ -717,7 +760,7 @@ func classify(c Case) (bool, []string) {
 
 var prop = ev.Register(&ev.Prop[Case]{
 	ID: "C08", Name: "dispatch",
-	Rule: "1..4 connections (accept path via Server.Serve on a memnet.Listener and dial path via diam.NewConn, or a multi-stream SCTP association over the in-memory backend whose messages arrive one chunk each on streams {0,1,2,7}; one shared ServeMux, or (1 in 5) a nil Handler = diam.DefaultServeMux), 1..8 numbered messages each, arriving in one segment / one byte at a time / arbitrary fragments, a scripted global interleaving of the fragments, handler behaviours {return, Gosched x k, sleep <= 1 ms, hold until released} and scripted release points; before every release each connection must have reached the point the model 'one handler at a time per connection, connections independent' predicts (bounded wait 5 s), and the enter/exit log of each connection must read enter 1, exit 1, enter 2, ...; non-trivial = >= 2 connections, >= 3 messages inside one segment on one of them and >= 1 held handler",
+	Rule: "1..4 connections (accept path via Server.Serve on a memnet.Listener and dial path via diam.NewConn, or a multi-stream SCTP association over the in-memory backend whose messages arrive one chunk each on streams {0,1,2,7}; one shared ServeMux, or (1 in 5) a nil Handler = diam.DefaultServeMux), 1..8 numbered messages each, arriving in one segment / one byte at a time / arbitrary fragments, a scripted global interleaving of the fragments, handler behaviours {return, Gosched x k, sleep <= 1 ms, hold until released}, scripted release points and scripted registrations of further handlers on the mux from another goroutine; before every release each connection must have reached the point the model 'one handler at a time per connection, connections independent' predicts (bounded wait 5 s), and the enter/exit log of each connection must read enter 1, exit 1, enter 2, ...; non-trivial = >= 2 connections, >= 3 messages inside one segment on one of them and >= 1 held handler",
 	Gen:  genCase, Run: runCase, Classify: classify, Attempts: 5,
 })
 
@@ -728,4 +771,25 @@ func TestMain(m *testing.M) {
 
 func TestC08Dispatch(t *testing.T) { prop.Check(t, 400, 20000) }
 func TestC08Keep(t *testing.T)     { ev.RunKeep(t, "C08") }
+
+// The minimal histories behind the finding "registration while a handler is held": a handler of
+// connection 0 blocks, a handler for another command is registered from another goroutine, then
+// messages arrive on connection 1.
+func TestC08RegisterWhileHeld(t *testing.T) {
+	prop.Enumerate(t, false, func(yield func(Case) bool) {
+		for _, nilHandler := range []bool{false, true} {
+			for _, dial := range []bool{false, true} {
+				for n := 1; n <= 3; n++ {
+					c := Case{NilHandler: nilHandler, Conns: []CConn{
+						{Dial: dial, Msgs: []HMsg{{Beh: "hold"}, {Beh: "return"}}, Pattern: "one"},
+						{Dial: !dial, Msgs: []HMsg{{Beh: "return"}, {Beh: "return"}, {Beh: "return"}}[:n], Pattern: "one"},
+					}, Steps: []Step{{Op: "feed", Conn: 0, N: 1}, {Op: "register"}, {Op: "feed", Conn: 1, N: 1}, {Op: "release", Conn: 0}}}
+					if !yield(c) {
+						return
+					}
+				}
+			}
+		}
+	})
+}
 func TestReplay(t *testing.T)      { ev.Replay(t) }
